@@ -203,6 +203,21 @@ CORPUS = [
                                                      [1, 3000, 3500, [[2, 3100, 3200, [[1, 3150, 3160, []]]]]]]]]},
          {"tid": 101, "forest": [[0, 1050, 8000, [[3, 1100, 7000, [[2, 5000, 7000, []]]]]]], "cut": 4},
      ]},
+    # LOST while main is the innermost open call (its child time gets +1), then the data ends at main's own
+    # start time: add_remaining_fstack must clamp total up to child (found by a surviving mutant)
+    {"kind": "lost", "max_stack": 1024, "tags": ["corpus:remaining-clamp"],
+     "syms": [(0x1000, 0x80, "T", "main"), (0x1100, 0x80, "T", "alpha")],
+     "fns": [(BASE + 0x1000, "main"), (BASE + 0x1100, "alpha")],
+     "tasks": [{"tid": 100, "recs": [(ENTRY, 0, BASE + 0x1000, 1000), (LOST, 0, 1, 0), (ENTRY, 1, BASE + 0x1100, 1000)]}]},
+    # the data of a forked child: only the EXITs of the inherited frames (see C08_inherited_frames_refuted)
+    {"kind": "suffix", "max_stack": 1024, "tags": ["corpus:fork-child"],
+     "syms": [(0x1000, 0x80, "T", "main"), (0x1100, 0x80, "T", "work"), (0x1200, 0x80, "T", "fork")],
+     "fns": [(BASE + 0x1000, "main"), (BASE + 0x1100, "work"), (BASE + 0x1200, "fork")],
+     "tasks": [{"tid": 100, "recs": [(ENTRY, 0, BASE + 0x1000, 1000), (ENTRY, 1, BASE + 0x1100, 1100),
+                                     (ENTRY, 2, BASE + 0x1200, 1200), (EXIT, 2, BASE + 0x1200, 1300),
+                                     (EXIT, 1, BASE + 0x1100, 1400), (EXIT, 0, BASE + 0x1000, 1500)]},
+               {"tid": 101, "recs": [(EXIT, 2, BASE + 0x1200, 1310), (EXIT, 1, BASE + 0x1100, 2310),
+                                     (EXIT, 0, BASE + 0x1000, 3310)]}]},
 ]
 
 
@@ -212,6 +227,9 @@ def corpus_cases():
         fns = [Fn(a, n) for a, n in c["fns"]]
         tasks = []
         for t in c["tasks"]:
+            if "recs" in t:
+                tasks.append({"tid": t["tid"], "recs": list(t["recs"]), "truth": None})
+                continue
             recs = flat_recs([Call.from_json(j) for j in t["forest"]], fns)
             if t.get("cut"):
                 recs = recs[:t["cut"]]
